@@ -250,9 +250,14 @@ def gen(rng, size='small', focus=None):
         return gen_parallel(rng, size)
     ents = []
 
+    gate_ids = []
+
     def add(e):
         ents.append(e)
-        return ids_next(e)
+        r = ids_next(e)
+        if e['kind'] == 'gate':
+            gate_ids.append(r)
+        return r
 
     counter = [0]
 
@@ -508,6 +513,13 @@ def gen(rng, size='small', focus=None):
             ext.append(['at', t, new_script([['add_res', rng.choice([0, 1]), 8 * rng.choice([1, 1, -1, 2])]]), prio])
         else:
             ext.append(['at', t, new_script([['adjust', rng.choice(sources), rng.choice([-2, 1, 2, 3])]]), prio])
+    gates_here = list(gate_ids)
+    if gates_here and rng.random() < 0.6:
+        # the input of a decision gate blocked for a while and reopened: a blocked gate refuses whatever its decider says
+        g = rng.choice(gates_here)
+        t1 = rng.choice([0, 4, 8, 12, 16, 24])
+        ext.append(['at', t1, new_script([['block', g, 1]]), rng.choice([32, 184])])
+        ext.append(['at', t1 + rng.choice([8, 16, 24, 40]), new_script([['block', g, 0]]), rng.choice([32, 184])])
     if use_resources and rng.random() < 0.45:
         # a pool's capacity taken down to exactly zero (possibly while a machine holds some of it) and raised again later
         n, cap = rng.choice(pools)
